@@ -135,6 +135,27 @@ Section Steps.
                    input 0 0.
 End Steps.
 
+(* what the PROPERTY says about reader positions (second component): the events are delivered in stream
+   order without reading backwards, an event is not returned before the bytes of its span have been read,
+   and nothing beyond the reader is touched.  How far the decoder reads AHEAD before it returns an event
+   (it returns as soon as the automaton stops) is behaviour of the code: compared with the model in the
+   first component only (`spec_steps` is kept as documentation of that behaviour). *)
+Definition steps_sane (d : dfa) {Item} (decode_item : N -> list N -> option Item) (input : list N)
+    (steps : option (list nat)) : bool :=
+  match steps with
+  | None => false
+  | Some l =>
+      let spans := map span (fst (munch N Item (d_start d) (d_delta d) (d_accepting d) (d_terminal d) decode_item input)) in
+      Nat.eqb (length l) (length spans)
+      && (fix go (l : list nat) (spans : list (list N)) (off prev : nat) : bool :=
+            match l, spans with
+            | p :: l', sp :: spans' =>
+                let e := (off + length sp)%nat in
+                Nat.leb prev p && Nat.leb e p && Nat.leb p (length input) && go l' spans' e p
+            | _, _ => true
+            end) l spans 0%nat 0%nat
+  end.
+
 (* Gen: items are (pattern index, matched bytes); patterns registered as literal items carry no bytes;
    a pattern may be registered with a decoder that rejects matches of odd length *)
 Definition rejects_of (pats : list (regex * bool * bool)) (i : N) : bool :=
@@ -175,7 +196,8 @@ Definition prod_render (t : tok N) : itok :=
    an item of pattern i: pattern i matches the span; no pattern of higher priority (literal items
    by index, then matchers by index: the order of BTreeSet<MatcherTag>) matches it; NO pattern matches
    any longer prefix of the remaining stream; a matcher pattern returns exactly the span;
-   a raw token: either no pattern matches any non-empty prefix of the remaining stream, or the span is
+   a raw token: either no pattern matches ANY non-empty prefix of the remaining stream (shorter than,
+   equal to or longer than the span), or the span is
    the longest match and the highest-priority pattern matching it rejects it (odd length). *)
 Definition spans_of (d : dfa) {Item} (decode_item : N -> list N -> option Item) (input : list N) : list (list N) :=
   map span (fst (munch N Item (d_start d) (d_delta d) (d_accepting d) (d_terminal d) decode_item input)).
@@ -202,7 +224,7 @@ Fixpoint lang_tokens (pats : list (regex * bool * bool)) (spans : list (list N))
       nlist_eqb (firstn k rest) sp
       && no_longer_match pats rest k
       && match pat_matches pats sp, t with
-         | [], RW b => nlist_eqb b sp
+         | [], RW b => nlist_eqb b sp && no_longer_match pats rest 0
          | i :: _, RW b => nlist_eqb b sp && rejects_of pats i && Nat.odd k
                            && match nth_error pats (N.to_nat i) with Some (_, false, _) => true | _ => false end
          | i :: _, IT j b =>
@@ -263,7 +285,7 @@ Definition c03_check (c : c03_case) : bool * bool :=
       let d := if which =? 0 then event_dfa else command_dfa in
       let '(a, h) := check_runs d (prod_item table) prod_render input runs in
       (a && olist_eqb (model_steps d (prod_item table) input) steps,
-       h && olist_eqb (Some (spec_steps d (prod_item table) input)) steps)
+       h && steps_sane d (prod_item table) input steps)
   | Utf8 input runs =>
       ( forallb (fun r : run_rec => out_eqb (u8_model_run input (fst r)) (snd r)) runs,
         let spec := Some (u8_spec (length input) input) in
